@@ -67,12 +67,19 @@ class Contract:
         self.error = error
         self.error_args = None  # type: Optional[List[str]]
         self.error_arg_set = None  # type: Optional[Set[str]]
+        self.error_mandatory_args = None  # type: Optional[List[str]]
         if error is not None and (inspect.isfunction(error) or inspect.ismethod(error)):
             error_as_callable = cast(Callable[..., ExceptionT], error)
-            self.error_args = list(
-                inspect.signature(error_as_callable).parameters.keys()
-            )
+            error_signature = inspect.signature(error_as_callable)
+            self.error_args = list(error_signature.parameters.keys())
             self.error_arg_set = set(self.error_args)
+
+            # Names of the mandatory arguments of the error, analogous to ``mandatory_args`` of the condition
+            self.error_mandatory_args = [
+                name
+                for name, param in error_signature.parameters.items()
+                if param.default is inspect.Parameter.empty
+            ]
 
         self.location = location
 
